@@ -7,7 +7,9 @@
 (*           no send() call accounts for), failed (calls during which a    *)
 (*           write or drain raised), statuses (notifications after the     *)
 (*           initial CONNECTED), opens (connection attempts), bad (calls   *)
-(*           whose message cannot be sent), clean (no fault was injected)] *)
+(*           whose message cannot be sent), clean (no fault was injected), *)
+(*           stale (packets written to a link after a newer connection    *)
+(*           had been adopted: they never reach the gateway)]              *)
 (***************************************************************************)
 EXTENDS N2KSend, Json, IOUtils, TLC
 
@@ -20,6 +22,7 @@ Verdict(r) ==
       bad == {r.bad[k] : k \in 1..Len(r.bad)}
   IN IF \E k \in 1..Len(r.wire) : r.wire[k][1] = -1 THEN "foreign-packet-on-the-link"
      ELSE IF \E k \in 1..Len(r.wire) : r.wire[k][1] \in bad THEN "unsendable-message-wrote"
+     ELSE IF r.stale > 0 THEN "packet-written-to-a-replaced-link"
      ELSE IF ~BlocksOK(r.wire, nfun, failed, {}, {}) THEN
           (IF \E a, b, c \in 1..Len(r.wire) : a < b /\ b < c /\ r.wire[a][1] = r.wire[c][1] /\ r.wire[b][1] # r.wire[a][1]
            THEN "packets-of-two-messages-interleaved" ELSE "packets-missing-or-out-of-order")
